@@ -24,10 +24,12 @@ LIMIT = 100
 
 def legacy_reads(ex, p, k, node):
     """legacy readline: b'' (empty read) | a non-empty line | raises"""
-    q = p.fork()
-    q.trail.append(f'rexc{k}')
-    q.events.append(('read-exc',))
-    yield q, Raised('SerialException', node=node)
+    # the exception classes the code itself names in its handlers (pyserial raises all three kinds)
+    for cls in ('SerialException', 'OSError', 'RuntimeError'):
+        q = p.fork()
+        q.trail.append(f'rexc{k}' + ('' if cls == 'SerialException' else f':{cls}'))
+        q.events.append(('read-exc',))
+        yield q, Raised(cls, node=node)
     q = p.fork()
     q.trail.append(f'rblank{k}')
     q.events.append(('read', 'blank', None))
@@ -112,7 +114,7 @@ class RetryLoop(LoopSpec):
 
 
 def install(ctx):
-    sm.install_common(ctx, sm.PortModel(faults=True, reads=legacy_reads))
+    sm.install_common(ctx, sm.PortModel(faults=True, reads=legacy_reads, exc_classes=('SerialException', 'OSError', 'RuntimeError')))
     ctx.loop_specs[(f'{MOD}.query', 0)] = RetryLoop('response', 'str')
     ctx.loop_specs[(f'{MOD}.query', 1)] = RetryLoop('unused_response', 'bytes')
     ctx.loop_specs[(f'{MOD}.command', 0)] = RetryLoop('response', 'str')
